@@ -466,3 +466,98 @@ Proof.
   replace (Z.min (os_combo s) (sat_sub (oi_max_combo i) (os_misses s))) with (os_combo s) by lia.
   destruct s; reflexivity.
 Qed.
+
+(* ================================== catch ================================== *)
+Definition catch_in_ok (i : catch_in) : Prop :=
+  0 <= ci_fruits i /\ 0 <= ci_droplets i /\ 0 <= ci_tiny i /\
+  (forall v, ci_combo i = Some v -> 0 <= v) /\ (forall v, ci_o_fruits i = Some v -> 0 <= v) /\
+  (forall v, ci_o_droplets i = Some v -> 0 <= v) /\ (forall v, ci_o_tiny i = Some v -> 0 <= v) /\
+  (forall v, ci_o_tiny_misses i = Some v -> 0 <= v) /\ (forall v, ci_misses i = Some v -> 0 <= v).
+Definition catch_total (i : catch_in) : Z := ci_fruits i + ci_droplets i.
+
+(* what C12 asks of a generated catch state: misses within the palpable objects; fruits and
+   droplets non-negative and adding up — with the misses — to exactly fruits + droplets for EVERY
+   combination of provided values; a kind that was not provided stays within its own maximum;
+   the combo within what is achievable and below a provided one; tiny droplets and tiny droplet
+   misses non-negative and together at most the tiny droplets of the map *)
+Record catch_gs_ok (i : catch_in) (s : catch_state) : Prop := {
+  cg_misses : cs_misses s = omin (ci_misses i) (catch_total i) /\ 0 <= cs_misses s <= catch_total i;
+  cg_nonneg : 0 <= cs_fruits s /\ 0 <= cs_droplets s;
+  cg_sum : cs_fruits s + cs_droplets s + cs_misses s = catch_total i;
+  cg_caps : (ci_o_fruits i = None -> cs_fruits s <= ci_fruits i) /\
+            (ci_o_droplets i = None -> cs_droplets s <= ci_droplets i);
+  cg_combo : 0 <= cs_combo s <= catch_total i - cs_misses s /\
+             (forall c, ci_combo i = Some c -> cs_combo s <= c);
+  cg_tiny : 0 <= cs_tiny s /\ 0 <= cs_tiny_misses s /\
+            (ci_acc i = None -> ci_o_tiny i = None \/ ci_o_tiny_misses i = None ->
+             cs_tiny s + cs_tiny_misses s = ci_tiny i) }.
+
+Lemma catch_find_best_bounds (at_ : Z) (cand_dist : Z -> float) lo hi :
+  0 <= at_ -> 0 <= lo ->
+  let r := snd (pick (fun t => (t, at_ - t)) cand_dist (range_incl (Z.min at_ lo) (Z.min at_ hi)) (infinity, (0, 0))) in
+  0 <= fst r /\ 0 <= snd r /\ fst r + snd r <= at_.
+Proof.
+  intros Ha Hlo r. subst r.
+  destruct (pick_in (fun t => (t, at_ - t)) cand_dist (range_incl (Z.min at_ lo) (Z.min at_ hi)) (infinity, (0, 0)))
+    as [H|(x & Hx & H)]; rewrite H; cbn [fst snd].
+  - lia.
+  - apply range_incl_bounds in Hx. lia.
+Qed.
+
+Theorem catch_generate_ok i : catch_in_ok i -> catch_gs_ok i (catch_generate i).
+Proof.
+  intros (Hf & Hd & Ht & Hc & Hof & Hod & Hot & Hotm & Hm).
+  destruct i as [af ad at_ combo o_f o_d o_t o_tm misses acc].
+  cbn [ci_fruits ci_droplets ci_tiny ci_combo ci_o_fruits ci_o_droplets ci_o_tiny ci_o_tiny_misses ci_misses ci_acc] in *.
+  unfold catch_generate, catch_total.
+  cbn [ci_fruits ci_droplets ci_tiny ci_combo ci_o_fruits ci_o_droplets ci_o_tiny ci_o_tiny_misses ci_misses ci_acc].
+  (* fruits / droplets / misses / combo: pure integer arithmetic *)
+  set (m := omin misses (af + ad)).
+  assert (Hm' : 0 <= m <= af + ad) by (apply omin_le; [lia|exact Hm]).
+  set (fd := match o_f, o_d with
+             | Some f, Some d => _ | Some f, None => _ | None, Some d => _ | None, None => _ end).
+  assert (Hfd : 0 <= fst fd /\ 0 <= snd fd /\ fst fd + snd fd + m = af + ad /\
+                (o_f = None -> fst fd <= af) /\ (o_d = None -> snd fd <= ad)).
+  { subst fd. destruct o_f as [f|]; [specialize (Hof f eq_refl)|];
+      (destruct o_d as [d|]; [specialize (Hod d eq_refl)|]);
+      cbn [fst snd]; rewrite ?sat_sub_spec; repeat split; intros; try discriminate; lia. }
+  destruct fd as [nf nd]. cbn [fst snd] in Hfd. destruct Hfd as (Hnf & Hnd & Hsum & Hcf & Hcd).
+  (* tiny droplets *)
+  set (tt := match o_t, o_tm with
+             | Some t, Some tm => _ | Some t, None => _ | None, Some tm => _ | None, None => _ end).
+  assert (Htt : 0 <= fst tt /\ 0 <= snd tt /\
+                (acc = None -> o_t = None \/ o_tm = None -> fst tt + snd tt = at_)).
+  { subst tt.
+    assert (Hfb : forall a : float,
+       let r := snd (pick (fun t => (t, at_ - t)) (fun t => fdist a (catch_accuracy nf nd t (at_ - t) m))
+                          (range_incl (Z.min at_ (to_u32 (ffloor (a * of_Z (af + ad + at_) - of_Z (nf + nd)))))
+                                      (Z.min at_ (to_u32 (fceil (a * of_Z (af + ad + at_) - of_Z (nf + nd))))))
+                          (infinity, (0, 0))) in
+       0 <= fst r /\ 0 <= snd r /\ fst r + snd r <= at_).
+    { intros a. apply catch_find_best_bounds; [exact Ht|apply to_u32_nonneg]. }
+    destruct o_t as [t|]; [specialize (Hot t eq_refl)|];
+      (destruct o_tm as [tm|]; [specialize (Hotm tm eq_refl)|]).
+    - destruct acc as [a|].
+      + destruct (t + tm =? at_) eqn:E.
+        * cbn [fst snd]. repeat split; try lia; try (intros; discriminate).
+        * destruct (Hfb a) as (H1 & H2 & H3). repeat split; try assumption; try (intros; discriminate).
+      + cbn [fst snd]. rewrite sat_sub_spec. repeat split; try lia; try (intros _ [H|H]; discriminate).
+    - cbn [fst snd]. rewrite sat_sub_spec. repeat split; try lia.
+    - cbn [fst snd]. rewrite sat_sub_spec. repeat split; try lia.
+    - destruct acc as [a|].
+      + destruct (Hfb a) as (H1 & H2 & H3). repeat split; try assumption; try (intros; discriminate).
+      + cbn [fst snd]. repeat split; lia. }
+  destruct tt as [t tm]. cbn [fst snd] in Htt. destruct Htt as (Ht1 & Ht2 & Ht3).
+  constructor; unfold catch_total;
+    cbn [cs_misses cs_fruits cs_droplets cs_combo cs_tiny cs_tiny_misses
+         ci_fruits ci_droplets ci_tiny ci_combo ci_o_fruits ci_o_droplets ci_o_tiny
+         ci_o_tiny_misses ci_misses ci_acc]; fold m.
+  - split; [reflexivity|lia].
+  - split; assumption.
+  - exact Hsum.
+  - split; assumption.
+  - rewrite sat_sub_spec. destruct combo as [c|]; [specialize (Hc c eq_refl)|].
+    + split; [lia|]. intros c' H. injection H as <-. lia.
+    + split; [lia|]. intros c' H. discriminate.
+  - repeat split; assumption.
+Qed.
